@@ -15,7 +15,8 @@ What is proved, what is not:
   when it does not fit an empty batch (`reject_only_oversized`);
 * request accounting: `createReq`'s running `wireLength` is `base + closed form` and at most the limit
   (`createReq_accounting`);
-* **request bound**: true for the non-flexible record-batch versions 3–8 (`request_bound_v3_v8`);
+* **request bound**: true for the non-flexible versions: message sets 0–2 (`request_bound_v0_v2`) and record
+  batches 3–8 (`request_bound_v3_v8`);
   for the flexible versions 9–13 only up to `topics + partitions` extra bytes
   (`request_bound_flexible_partial`), and the full statement is FALSE (`request_bound_flexible_false`):
   the per-partition and per-topic tag bytes are not in `tryAddBatch`'s accounting.
@@ -23,12 +24,13 @@ What is proved, what is not:
 Full statement of the property, for reference (the parts marked ✗ are not theorems here):
   ∀ version 0–13, compressor, record set: `decode (encode req)` = one batch per partition with the buffered
   records in order, consistent lengths / CRC position / deltas / attributes / producer id, epoch, sequence ✗(a);
-  `(encode batch).length = accounted` uncompressed, `≤` compressed ✓ (v3+), ✗(b) message sets;
+  `(encode batch).length = accounted` uncompressed, `≤` compressed ✓ (v3+); message sets: `≤` only (b);
   written batch ≤ max batch size ✓ (v3+), FALSE for message sets (c);
-  written request ≤ BrokerMaxWriteBytes ✓ v3–v8, FALSE v9–v13, ✗(b) v0–v2.
+  written request ≤ BrokerMaxWriteBytes ✓ v0–v8, FALSE v9–v13.
  (a) the decode∘encode round trip is not proved in Lean; it is checked on every differential case by the
      independent strict reference decoder `Spec.C18` evaluated on the implementation's bytes;
- (b) message-set lengths (Produce v0–v2) are modelled and differentially validated but have no theorem;
+ (b) for message sets the accounting is an over-estimate by construction (`messageSet0Length` counts a 4-byte
+     array length per record), so only `≤` holds (`message_set_length_le`), with or without compressor;
  (c) for Produce v0–v2 `tryBuffer` adds the *record-batch* size of the new record to the *message-set* size of
      the batch, so a message set can exceed `ProducerBatchMaxBytes` by up to about 27 bytes (found by the run,
      stable key `message-set-exceeds-max-batch-bytes`). -/
@@ -146,6 +148,22 @@ theorem request_bound_v3_v8 (e : Env) (c : Cfg) (v : Int) (start : Nat) (rbs : L
   have := ha.2 hne
   omega
 
+/-- **Request bound, Produce v0–v2** (message sets; the sink knows the version): the same bound. The
+accounting over-estimates message sets (4 bytes per record for v2, 12 for v0/v1, beyond the first). -/
+theorem request_bound_v0_v2 (e : Env) (c : Cfg) (v : Int) (start : Nat) (rbs : List RecBuf) (corr pid ep : Int)
+    (h0 : 0 ≤ v) (h3 : v < 3) (hr : ∀ rb ∈ rbs, RbInv rb) (hne : (createReq c v start rbs).1.batches ≠ []) :
+    ((appendRequest e c v corr pid ep (createReq c v start rbs).1.batches).length : Int) ≤ c.maxBrokerWriteBytes := by
+  have ha := createReq_accounting c v start rbs
+  have hl := appendRequest_le_ms e c v corr pid ep _ h0 h3 (createReq_topicsInv c v start rbs hr)
+  have := ha.2 hne
+  omega
+
+/-- A message set (Produce v0–v2) is at most the length `tryAddBatch` accounts for it, with any compressor. -/
+theorem message_set_length_le (crc : Bytes → Nat) (comp : Option Compressor) (b : PartBatch) (v : Int)
+    (h0 : 0 ≤ v) (h3 : v < 3) (h : BatchInv b.batch) (hne : b.batch.records ≠ []) :
+    ((appendToAsMessageSet crc comp b v).length : Int) ≤ bwl v b.batch :=
+  appendToAsMessageSet_le crc comp b v h0 h3 h hne
+
 /-- The same bound for *any* order of topics and partitions (Go map iteration) that has the same closed-form
 accounting — the accounting is a sum over topics and partitions. -/
 theorem request_bound_v3_v8_any_order (e : Env) (c : Cfg) (v corr pid ep : Int) (ts : List TopicBatches)
@@ -214,7 +232,7 @@ theorem request_bound_flexible_false :
   have hr : ∀ rb ∈ wRbs, RbInv rb := by
     intro rb h
     simp only [wRbs, List.mem_cons, List.not_mem_nil, or_false] at h
-    rcases h with h | h <;> subst h <;> exact ⟨fun b hb => (hB b hb).1, wId_length⟩
+    rcases h with h | h <;> subst h <;> exact ⟨fun b hb => ⟨(hB b hb).1, (hB b hb).2.1⟩, wId_length⟩
   have hacc := createReq_accounting wCfg 13 0 wRbs
   have hinv := createReq_topicsInv wCfg 13 0 wRbs hr
   have hex := request_length_flexible_exact wEnv wCfg 13 7 5 0 _ (by omega) rfl rfl hinv
